@@ -109,6 +109,16 @@ CLAIMED = {
             'consistently for both attr modes; GroupBase.alter delegates per device; as_dict(vin=True) exports vin.',
             'DESIGN.md 4/C11', 'lookups from C10/C19; pointwise NumPy semantics; writers (xlsx/json) not decided',
             'contract-based deductive verification: symbolic execution with call-site obligations + SMT'),
+    'C20': ('proof',
+            'Config._set (int if int() accepts, else float if float() accepts, else the string; non-strings unchanged), '
+            '_add (never overwrites an existing field), check (ValueError exactly for a value outside iterable non-string '
+            'alternatives), as_dict (current public fields; stale cache is known finding F20), '
+            'System._update_config_object (applied iff exactly one "=" and one "." with stripped parts, else ValueError), and '
+            'call-order obligations on System.__init__ / BaseRoutine.__init__ / Config.update that carry the precedence. '
+            'Partial: ConfigParser text handling is assumed.',
+            'DESIGN.md 4/C20', 'int/float/str/ConfigParser contracts assumed (listed in evidence)',
+            'contract-based deductive verification: symbolic execution with uninterpreted string functions + SMT, plus '
+            'syntactic call-order obligations'),
 }
 
 ALL = ['C%02d' % i for i in range(1, 21)]
